@@ -103,6 +103,10 @@ func runAPCase(t *testing.T, m *Model, rng *RNG, c apCase, replay bool) (goRes s
 						cs[i] = XS(x)
 					}
 					res = fmt.Sprintf("ok %s %s %d", List(cs), XS(cr.Domain()), Micros(cr.ValidUntil()))
+					if cr.CName().NameType != c.cnt {
+						// the whole name is the sealed one, its type included (the authenticator's is the client's own claim)
+						res = fmt.Sprintf("ok-but-name-type-differs reported=%d sealed=%d authenticator=%d", cr.CName().NameType, c.cnt, c.aCnt)
+					}
 					if strings.HasPrefix(c.pac, "valid") && c.decodePAC && len(lastMintedPAC) > 0 {
 						if d := adCredentialsDiffer(creds.GetADCredentials(), lastMintedPAC); d != "" {
 							res = "ok-but-ad-credentials-differ " + d
@@ -260,6 +264,7 @@ func c01Defects() []defect {
 		{"acname", func(c *apCase, r *RNG) { c.aCname = []string{"someoneelse"} }},
 		{"acname-extra-component", func(c *apCase, r *RNG) { c.aCname = []string{"=", "admin"} }},
 		{"acnametype", func(c *apCase, r *RNG) { c.aCnt = 10 }},
+		{"cnametype-wellknown-acnametype-principal", func(c *apCase, r *RNG) { c.cnt, c.aCnt = 11, 1 }},
 		{"acrealm", func(c *apCase, r *RNG) { c.aCrealm = "EVIL.REALM" }},
 		// the client realm is compared octet by octet: a case variant is another realm
 		{"acrealm-case", func(c *apCase, r *RNG) { c.aCrealm = strings.ToLower(c.crealm) }},
